@@ -100,7 +100,12 @@ func c16Gen(tier string, emit func(any)) {
 			}
 		}
 	}
-	for _, l := range []string{"unparseable-source", "rewrite-error", "unparseable-result", "missing-path", "missing-path-abs", "missing-path-abs-slash", "missing-path-abs-dots", "missing-path-abs-dotdot", "missing-dir-rel-dots", "missing-patch", "patch-is-directory", "malformed-patch", "missing-patches-file", "patches-file-names-missing-patch", "patches-file-unterminated-names-missing-patch", "patches-file-unterminated-names-malformed-patch", "name-too-long-for-temporary", "printer-panic", "engine-panic-after-applied-change"} {
+	for _, l := range []string{"unparseable-source", "rewrite-error", "unparseable-result", "missing-path", "missing-path-abs", "missing-path-abs-slash", "missing-path-abs-dots", "missing-path-abs-dotdot", "missing-dir-rel-dots", "missing-patch", "patch-is-directory", "malformed-patch", "missing-patches-file", "patches-file-names-missing-patch", "patches-file-unterminated-names-missing-patch", "patches-file-unterminated-names-malformed-patch", "name-too-long-for-temporary", "printer-panic", "engine-panic-after-applied-change",
+		"rewrite-error-import-first", "rewrite-error-import-middle", "rewrite-error-import-last",
+		"broken-change:unknown-type", "broken-change:missing-type", "broken-change:duplicate-metavariable", "broken-change:body-not-go",
+		"broken-change:two-declarations", "broken-change:two-declarations-after-import", "broken-change:two-declarations-after-two-imports",
+		"broken-change:two-declarations-after-import-group-of-2", "broken-change:three-declarations-after-import-group-of-3", "broken-change:two-declarations-after-import-group-of-3",
+		"broken-change:two-statements-lists-sides-differ"} {
 		for n := 1; n <= 3; n++ {
 			for pos := 0; pos < n; pos++ {
 				emit(&C16Case{Family: "logical", Logical: l, Kinds: make([]string, n), Position: pos})
@@ -594,6 +599,22 @@ func c16Run(env *core.Env, ci any) core.Outcome {
 
 var c16ErrnoText = map[string]string{"ENOSPC": "no space left on device", "EIO": "input/output error", "EACCES": "permission denied", "EROFS": "read-only file system"}
 
+// c16BrokenChanges: changes that cannot be loaded (the documentation allows exactly one declaration, expression or
+// statement list per change, metavariables of the three known kinds declared once, and Go code on both sides).
+var c16BrokenChanges = map[string]string{
+	"unknown-type":                               "@@\nvar x expresion\n@@\n-foo(x)\n+bar(x)\n",
+	"missing-type":                               "@@\nvar x\n@@\n-foo(x)\n+bar(x)\n",
+	"duplicate-metavariable":                     "@@\nvar x expression\nvar x identifier\n@@\n-foo(x)\n+bar(x)\n",
+	"body-not-go":                                "@@\nvar x expression\n@@\n-foo(x\n+bar(x)\n",
+	"two-declarations":                           "@@\n@@\n-func old() {}\n+func new1() {}\n-var a = 1\n+var a = 2\n",
+	"two-declarations-after-import":              "@@\n@@\n import \"fmt\"\n\n-func old() {}\n+func new1() {}\n-var a = 1\n+var a = 2\n",
+	"two-declarations-after-two-imports":         "@@\n@@\n import \"fmt\"\n import \"os\"\n\n-func old() {}\n+func new1() {}\n-var a = 1\n+var a = 2\n",
+	"two-declarations-after-import-group-of-2":   "@@\n@@\n import (\n \t\"fmt\"\n \t\"os\"\n )\n\n-func old() {}\n+func new1() {}\n-var a = 1\n+var a = 2\n",
+	"three-declarations-after-import-group-of-3": "@@\n@@\n import (\n \t\"fmt\"\n \t\"os\"\n \t\"io\"\n )\n\n-func old() {}\n+func new1() {}\n-var a = 1\n+var a = 2\n-var b = 1\n+var b = 2\n",
+	"two-declarations-after-import-group-of-3":   "@@\n@@\n import (\n \t\"fmt\"\n \t\"os\"\n \t\"io\"\n )\n\n-func old() {}\n+func new1() {}\n-var a = 1\n+var a = 2\n",
+	"two-statements-lists-sides-differ":          "@@\n@@\n-func old() {}\n+func new1() {}\n+var a = 2\n",
+}
+
 // c16Logical: per-file and per-run logical failures at every position.
 func c16Logical(env *core.Env, c *C16Case) core.Outcome {
 	n := len(c.Kinds)
@@ -637,6 +658,10 @@ func c16Logical(env *core.Env, c *C16Case) core.Outcome {
 				content = "package p\n\nfunc ep() {\n\tfoo(6)\n\tsel(1 + 2)\n}\n"
 				failing, perFile = name, true
 				wantInStderr = []string{name}
+			case "rewrite-error-import-first", "rewrite-error-import-middle", "rewrite-error-import-last":
+				content = "package p\n\nfunc ri() {\n\tbaz(1)\n\tfoo(2)\n}\n"
+				failing, perFile = name, true
+				wantInStderr = []string{name}
 			case "name-too-long-for-temporary":
 				// a legal name so long that a sibling with a longer name cannot be created; the patched text is
 				// shorter than the original
@@ -661,9 +686,39 @@ func c16Logical(env *core.Env, c *C16Case) core.Outcome {
 		patchText = c16Patch + "\n@@\nvar x expression\n@@\n-sel(x)\n+bar.x\n"
 	case "name-too-long-for-temporary":
 		patchText = "@@\nvar x expression\n@@\n-foo(x)\n+b()\n"
+	case "rewrite-error-import-first", "rewrite-error-import-middle", "rewrite-error-import-last":
+		// a '+' import named by a metavariable nothing binds, at each position among the added imports
+		imps := map[string]string{
+			"rewrite-error-import-first":  "+import alias \"x/one\"\n+import \"x/two\"\n+import \"x/three\"\n",
+			"rewrite-error-import-middle": "+import \"x/two\"\n+import alias \"x/one\"\n+import \"x/three\"\n",
+			"rewrite-error-import-last":   "+import \"x/two\"\n+import \"x/three\"\n+import alias \"x/one\"\n",
+		}[c.Logical]
+		patchText = c16Patch + "\n@@\nvar x expression\nvar alias identifier\n@@\n" + imps + "\n-baz(x)\n+two.Baz(three.V, x)\n"
 	}
 	tree["p.patch"] = patchText
 	args = []string{"-p", filepath.Join(root, "p.patch")}
+	if shape, ok := strings.CutPrefix(c.Logical, "broken-change:"); ok {
+		// one patch file of n changes of which the one at Position cannot be loaded; the others are fine
+		broken, found := c16BrokenChanges[shape]
+		if !found {
+			panic("harness: unknown broken change " + shape)
+		}
+		var b strings.Builder
+		for i := 0; i < n; i++ {
+			switch {
+			case i == c.Position:
+				b.WriteString(broken)
+			case i == (c.Position+1)%n:
+				b.WriteString(c16Patch)
+			default:
+				b.WriteString("@@\nvar x expression\n@@\n-zzz(x)\n+yyy(x)\n")
+			}
+			b.WriteString("\n")
+		}
+		tree["mixed.patch"] = b.String()
+		args = []string{"-p", filepath.Join(root, "mixed.patch")}
+		wantInStderr = []string{"mixed.patch"}
+	}
 	fileArgs := append([]string{}, names...)
 	switch c.Logical {
 	case "missing-path", "missing-path-abs", "missing-path-abs-slash", "missing-path-abs-dots", "missing-path-abs-dotdot", "missing-dir-rel-dots":
